@@ -356,4 +356,48 @@ impl Response {
 //@@ contract
         ensures *res == self.sp_headers(),
 //@@ end
+//@@ fn src/parsing/response.rs impl~Response url props=C09
+//@@ contract
+        ensures *res == self.sp_url(), // id: reports_the_url_stored_at_parse_time [C09]
+//@@ end
+//@@ fn src/parsing/response.rs impl~Response is_success props=C09
+//@@ contract
+        ensures res == (200 <= status_u16(self.sp_status()) < 300),
+//@@ end
+//@@ fn src/parsing/response.rs impl~Response split props=C01,C04
+//@@ contract
+        ensures res.0 == self.sp_status() && res.1 == self.sp_headers() && res.2 == self.sp_reader(), // id: split_hands_out_the_parts_unchanged [C01,C04]
+//@@ end
+// the convenience accessors of Response hand the whole job to the reader (same contracts as ResponseReader's, over this response's body)
+//@@ fn src/parsing/response.rs impl~Response bytes props=C01,C02
+//@@ contract
+        requires self.sp_body().inv(),
+        ensures
+            self.sp_body() matches CompressedReader::Plain(b0) ==> ({
+                &&& (res matches Ok(v) ==> b0.owed().1 && v@ =~= b0.owed().0) // id: bytes_returns_exactly_the_framed_payload [C01]
+                &&& (!b0.owed().1 ==> res is Err) // id: incomplete_body_makes_bytes_fail [C02]
+            }),
+//@@ end
+//@@ fn src/parsing/response.rs impl~Response write_to props=C01,C02
+//@@ sigrw R10
+writer: W
+//@@ =>
+writer: &mut W
+//@@ contract
+        requires self.sp_body().inv(),
+        ensures
+            self.sp_body() matches CompressedReader::Plain(b0) ==> ({
+                &&& (res matches Ok(n) ==> b0.owed().1 && n == b0.owed().0.len() && (*final(writer)).sent() == (*old(writer)).sent() + b0.owed().0) // id: write_to_copies_exactly_the_framed_payload [C01]
+                &&& (!b0.owed().1 ==> res is Err) // id: incomplete_body_makes_write_to_fail [C02]
+            }),
+//@@ end
+//@@ fn src/parsing/response.rs impl~Response text_utf8 props=C01,C02,C18
+//@@ contract
+        requires self.sp_body().inv(),
+        ensures
+            self.sp_body() matches CompressedReader::Plain(b0) ==> ({
+                &&& (res matches Ok(s) ==> b0.owed().1 && s@ == utf8_lossy_string(b0.owed().0)) // id: text_utf8_decodes_exactly_the_framed_payload_lossily [C01,C18]
+                &&& (!b0.owed().1 ==> res is Err) // id: incomplete_body_makes_text_utf8_fail [C02]
+            }),
+//@@ end
 }
